@@ -42,16 +42,16 @@ def radiusOf (j : Json) (d : Dims) (pre : String) : Option Int :=
 
 /-! ### the soft-edge margin bounds of `Props/C12.soft_margin_checked`, evaluated on the executed kernel -/
 
-/-- squared integer frequency radius of every DFT bin (row-major), as `Props/C12.freqRadius2` -/
-def radius2Of (d : Dims) (j k l : Int) : Int :=
-  freq d.nx j * freq d.nx j + freq d.ny k * freq d.ny k + freq d.nz l * freq d.nz l
-
+/-- per-bin flags (row-major) of a predicate on the bin's squared integer frequency radius `Model/C12.freqRadius2` — the very
+definition the hypotheses of `Props/C12.soft_margin_checked` are stated with -/
 def flagsOf (d : Dims) (f : Int → Bool) : Json :=
-  Json.arr ((tabulate d (fun j k l => f (radius2Of d j k l))).flatMap (fun a => a.flatMap (fun b => b.map (fun (v : Bool) => ((if v then 1 else 0 : Nat) : Json)))))
+  Json.arr ((tabulate d (fun j k l => f (freqRadius2 d j k l))).flatMap (fun a => a.flatMap (fun b => b.map (fun (v : Bool) => ((if v then 1 else 0 : Nat) : Json)))))
 
 /-- `tail_in = tail3 ker m_in`, `tail_out = tail3 ker m_out` and, per bin, whether the hypotheses of
 `soft_gain_inside` / `soft_gain_outside` hold for that bin's squared radius; `mono_axes`: per axis, whether the ball stays off
-both faces of the mask box (`monoAxisOk`, the hypothesis of `Props/C12.soft_eff_gain_mono_step`) -/
+both faces of the mask box (`monoAxisOk`, the hypothesis of `Props/C12.soft_eff_gain_mono_step`); `face_rise`: per axis, `faceRise` on
+the executed kernel — twice the most a step of that index away from frequency 0 can add to the effective gain
+(`Props/C12.soft_eff_gain_axis_step_checked`), exactly 0.0 unless the axis is even, the ball reaches its upper face and the kernel reaches `n/2` -/
 def margins (j : Json) (d : Dims) (r : Int) (sigma : Float) : List (String × Json) :=
   match kernelOf sigma, getInt? j "m_in", getInt? j "m_out" with
   | some ker, some mi, some mo =>
@@ -59,7 +59,9 @@ def margins (j : Json) (d : Dims) (r : Int) (sigma : Float) : List (String × Js
      ("tail_reach", (bitsOfFloat (tail3 ker (3 * ((trunc sigma : Nat) : Int) * ((trunc sigma : Nat) : Int))) : Json)),
      ("inside", flagsOf d (fun A => fitsInside A mi r)), ("outside", flagsOf d (fun A => fitsOutside A mo r)),
      ("mono_axes", Json.arr #[((if monoAxisOk d.nx r then 1 else 0 : Nat) : Json), ((if monoAxisOk d.ny r then 1 else 0 : Nat) : Json),
-        ((if monoAxisOk d.nz r then 1 else 0 : Nat) : Json)])]
+        ((if monoAxisOk d.nz r then 1 else 0 : Nat) : Json)]),
+     ("face_rise", Json.arr #[(bitsOfFloat (faceRise ker d.nx r) : Json), (bitsOfFloat (faceRise ker d.ny r) : Json),
+        (bitsOfFloat (faceRise ker d.nz r) : Json)])]
   | _, _, _ => []
 
 /-! ### the whole filter: `np.real(ifftn(fftn(x) * ifftshift(mask)))` executed on the model's DFT -/
